@@ -167,6 +167,26 @@ class Analyzer:
             return NEVER
         return None
 
+    def _positive_const(self, a, depth=0):
+        """the expression is a named constant known to be a positive length: `const N: usize = 5`, `const N: usize = TEXT.len()`,
+        `TEXT.len()` / `"lit".len()` with a non-empty text"""
+        a = sir.strip_ref(a)
+        if a.get("k") == "mcall" and a["m"] == "len" and not a["args"]:
+            r = sir.strip_ref(a["recv"])
+            if r.get("k") == "lit" and r.get("t") == "str":
+                return len(r["v"]) > 0
+            t = sir.const_text(r)
+            return t is not None and len(t) > 0
+        if a.get("k") == "path" and depth < 3:
+            c = self.idx.const(a["segs"][-1]) if hasattr(self.idx, "const") else None
+            e = (c or {}).get("e")
+            if e is None:
+                return False
+            if e.get("k") == "lit" and str(e.get("v", "0")).split("usize")[0].isdigit():
+                return int(str(e["v"]).split("usize")[0]) > 0
+            return self._positive_const(e, depth + 1)
+        return False
+
     def is_cursor_arg(self, a):
         a = sir.strip_ref(a)
         return a.get("k") == "path" and a["s"] in self.cfg.cursor_names
@@ -402,7 +422,7 @@ class Analyzer:
                     out.append(s)
                 elif n.get("k") == "mcall" and n["m"] == "skip_bytes":
                     a0 = n["args"][0] if n["args"] else {}
-                    if a0.get("k") == "lit" and str(a0.get("v", "0")).isdigit() and int(a0["v"]) > 0:
+                    if (a0.get("k") == "lit" and str(a0.get("v", "0")).isdigit() and int(a0["v"]) > 0) or self._positive_const(a0):
                         out.append(s.with_(adv=True, ne=False))
                     else:
                         out.append(s)
